@@ -2066,6 +2066,14 @@ class TestResultDecorator:
         return self.decorated.stop()
 
     @property
+    def failfast(self):
+        return getattr(self.decorated, "failfast", False)
+
+    @failfast.setter
+    def failfast(self, value):
+        self.decorated.failfast = value
+
+    @property
     def testsRun(self):
         return self.decorated.testsRun
 
